@@ -8,9 +8,9 @@
    locals, hoisted subexpressions, reordered independent statements or accumulators and equivalent
    comparison forms still go through.  A function the translator refused is the hand model itself
    (placeholder): its lemma is then proved by the first, `reflexivity`, alternative. *)
-From Coq Require Import List ZArith Bool Lia.
+From Coq Require Import List ZArith Bool Lia Permutation.
 From DV Require Import Base.PyTuple Base.PyList Model.C04_NDSort Model.C04_LogSort Model.C04_GenRt
-  Proofs.C04_NDSort Proofs.C04_LogBase Proofs.C04_GenRtFacts Gen.C04_gen.
+  Proofs.C04_NDSort Proofs.C04_LogBase Proofs.C04_LogWrap Proofs.C04_GenRtFacts Gen.C04_gen.
 Import ListNotations.
 Local Open Scope Z_scope.
 
@@ -92,7 +92,7 @@ Ltac bool_eq := match goal with |- ?a = ?b => destruct a eqn:?, b eqn:?; zb2p; t
 
 (* the inner search loop (first stair with the same rank: delete it) and the two inserts *)
 Ltac swA_branch F fit :=
-  rewrite (for_brk_find (fun f => fget F f =? fget F fit) (fun i s => (py_del (fst s) i, py_del (snd s) i)))
+  rewrite (for_brk_find (fun f => fget F f =? fget F fit) (fun i _ s => (py_del (fst s) i, py_del (snd s) i)) _ [])
     by (intros ? ? [? ?]; gnorm; ifs_solve);
   destruct (find_index _ _); gnorm; (split; [|apply insert_at_nonnil]);
   rewrite ?py_del_at, ?py_insert_at by lia; rewrite ?Z2Nat.inj_add, ?Nat2Z.id by lia; reflexivity.
@@ -133,8 +133,132 @@ Proof.
           end ].
 Qed.
 
-Lemma gen_sweepB_eq best worst front : gen_sweepB best worst front = sweepB best worst front.
-Proof. reflexivity. Qed.   (* sweepB is outside the translator's grammar (while / iterator): placeholder *)
+(* ---- sweepB: the while loop over the iterator is sweepB_consume ---- *)
+Definition ne_all (l : list wvals) : Prop := Forall (fun x => x <> []) l.
+Definition restof (nb : option wvals) (it : list wvals) : list wvals := match nb with Some x => x :: it | None => [] end.
+
+Lemma restof_next r : restof (hd_error r) (tl r) = r.
+Proof. destruct r; reflexivity. Qed.
+
+Lemma zlen_ne (x : wvals) : x <> [] -> (zlen x =? 0) = false.
+Proof. destruct x; [congruence|]. intros _. unfold zlen. cbn [length]. apply Z.eqb_neq. lia. Qed.
+
+(* the body of the while loop on a present next_best = sweepB_insert *)
+Definition insB_spec (front : fmap) (f : list Z * list wvals * option wvals * list wvals -> list Z * list wvals * option wvals * list wvals) : Prop :=
+  forall st fs x it, length st = length fs ->
+    f (st, fs, Some x, it) = (fst (sweepB_insert front st fs x), snd (sweepB_insert front st fs x), hd_error it, tl it).
+
+Lemma while_consume front h fuel cond body :
+  (forall st fs nb it, cond (st, fs, nb, it) =
+     match nb with Some x => negb (zlen x =? 0) && tup_le (upto h 2) (upto x 2) | None => false end) ->
+  insB_spec front body ->
+  forall rest st fs nb it, rest = restof nb it -> ne_all rest -> (length rest < fuel)%nat -> length st = length fs ->
+  exists st' fs' nb' it',
+    while_loop fuel cond body (st, fs, nb, it) = Some (st', fs', nb', it') /\
+    sweepB_consume front h rest st fs = (restof nb' it', st', fs') /\
+    ne_all (restof nb' it') /\ (length (restof nb' it') <= length rest)%nat /\ length st' = length fs'.
+Proof.
+  intros Hc Hb. induction fuel as [|fu IH]; intros rest st fs nb it E NE L LS; [lia|].
+  cbn [while_loop]. rewrite Hc. destruct nb as [x|]; cbn [restof] in E; subst rest.
+  - inversion NE as [|? ? Hx NE']; subst. rewrite zlen_ne by assumption. cbn [negb andb sweepB_consume].
+    destruct (tup_le (upto h 2) (upto x 2)).
+    + rewrite Hb by assumption.
+      destruct (sweepB_insert front st fs x) as [st2 fs2] eqn:EI. cbn [fst snd].
+      assert (LS2 : length st2 = length fs2).
+      { unfold sweepB_insert in EI. destruct (find_index _ fs) as [i|].
+        - destruct (_ >? _); inversion EI; subst; [assumption|]. apply insert_at_length_eq, remove_at_length_eq, LS.
+        - inversion EI; subst. apply insert_at_length_eq, LS. }
+      destruct (IH it st2 fs2 (hd_error it) (tl it)) as (st' & fs' & nb' & it' & W & C & N & Len & LS');
+        [now rewrite restof_next|assumption|cbn [length] in L; lia|assumption|].
+      exists st', fs', nb', it'. repeat split; try assumption. cbn [length]. lia.
+    + exists st, fs, (Some x), it. cbn [restof]. repeat split; auto.
+  - exists st, fs, None, it. cbn [restof sweepB_consume]. repeat split; auto.
+Qed.
+
+Definition sbR (best : list wvals) (s : list Z * list wvals * option wvals * list wvals * fmap) (t : list wvals * sweep) : Prop :=
+  let '(st, fs, nb, it, fr) := s in
+  snd t = mksw st fs fr /\ fst t = restof nb it /\ ne_all (fst t) /\ (length (fst t) <= length best)%nat /\ length st = length fs.
+
+Ltac insB_tac :=
+  let st := fresh "st" in let fs := fresh "fs" in let x := fresh "x" in let it := fresh "it" in let LS := fresh "LS" in
+  intros st fs x it LS; gnorm;
+  match goal with fr : fmap |- context[for_brk _ _ _] =>
+      rewrite (for_brk_find (fun f => fget fr f =? fget fr x)
+                 (fun i fstair s => if item fstair 1 >? item x 1 then (false, snd (fst s), snd s)
+                                    else (fst (fst s), py_del (snd (fst s)) i, py_del (snd s) i)) _ x)
+        by (intros ? ? [[? ?] ?]; gnorm; ifs_solve)
+  end;
+  unfold sweepB_insert;
+  match goal with |- context[find_index ?p ?l] => destruct (find_index p l) end; gnorm;
+  try match goal with |- context[item (nth ?a ?b ?c) 1 >? ?d] => destruct (item (nth a b c) 1 >? d); gnorm; [reflexivity|] end;
+  rewrite ?py_del_at by lia; rewrite ?Z.add_0_l, ?Nat2Z.id;
+  repeat match goal with |- context[bisect_right ?a ?b] =>
+    let B := fresh "B" in pose proof (bisect_right_bounds a b) as B; generalize dependent (bisect_right a b); intros end;
+  rewrite ?py_del_at, ?py_insert_at by lia; rewrite ?Z.add_0_l, ?Nat2Z.id; reflexivity.
+
+(* one pass of `for h in worst`: the while loop is sweepB_consume, then the rank of h *)
+Ltac swB_step best :=
+  let W := fresh "W" in let C := fresh "C" in let N' := fresh "N'" in let Len' := fresh "Len'" in let LS' := fresh "LS'" in
+  let B := fresh "B" in let Cnd := fresh "Cnd" in
+  let st := fresh "st" in let fs := fresh "fs" in let nb := fresh "nb" in let it := fresh "it" in let fr := fresh "fr" in
+  let rest := fresh "rest" in let sw := fresh "sw" in let h := fresh "h" in
+  let E1 := fresh "E1" in let E2 := fresh "E2" in let N := fresh "N" in let Len := fresh "Len" in let LS := fresh "LS" in
+  let st' := fresh "st'" in let fs' := fresh "fs'" in let nb' := fresh "nb'" in let it' := fresh "it'" in let idx := fresh "idx" in
+  intros [[[[st fs] nb] it] fr] [rest sw] h (E1 & E2 & N & Len & LS); cbn [fst snd] in *; subst sw rest;
+  unfold sweepB_step; cbn [sw_front sw_stairs sw_fstairs];
+  match goal with |- context[while_loop ?fuel ?c ?b _] =>
+    destruct (while_consume fr h fuel c b) with (rest := restof nb it) (st := st) (fs := fs) (nb := nb) (it := it)
+      as (st' & fs' & nb' & it' & W & C & N' & Len' & LS') end;
+  [ solve [intros ? ? [?|] ?; gnorm; reflexivity]
+  | solve [insB_tac]
+  | reflexivity
+  | assumption
+  | unfold wvals in *; lia
+  | assumption
+  | unfold wvals in *; rewrite W, C; cbn [obind]; gnorm;
+    eexists; split; [reflexivity|];
+    unfold sweep_rank; gnorm;
+    pose proof (bisect_right_bounds st' (- item h 1)) as B;
+    set (idx := bisect_right st' (- item h 1)) in *;
+    rewrite ?(slice_to_firstn fs' idx) by lia;
+    repeat match goal with
+    | |- context[if ?c then kset fr ?b ?v else fr] =>
+        lazymatch c with
+        | (0 <? idx) && (idx <=? zlen st') => fail
+        | _ => replace c with ((0 <? idx) && (idx <=? zlen st')) by bool_eq
+        end
+    end;
+    destruct ((0 <? idx) && (idx <=? zlen st')) eqn:Cnd;
+    [ zb2p; rewrite (py_max_default _ _ [] h)
+        by (destruct fs' as [|? ?]; [unfold zlen in *; cbn [length] in *; rewrite LS' in *; cbn [length] in *; lia|];
+            destruct (Z.to_nat idx) eqn:?; [lia|discriminate]);
+      unfold fbump, sbR; cbn [fst snd]; unfold wvals in *; repeat split; try assumption; try reflexivity; lia
+    | unfold sbR; cbn [fst snd]; unfold wvals in *; repeat split; try assumption; try reflexivity; lia ] ].
+
+Lemma gen_sweepB_eq best worst front : ne_all best -> gen_sweepB best worst front = Some (sweepB best worst front).
+Proof.
+  intro NE.
+  first [ reflexivity
+        | unfold gen_sweepB, sweepB; gnorm;
+          match goal with |- obind (fold_opt ?f worst ?s0) _ = Some (sw_front (snd (fold_left ?g worst ?t0))) =>
+            let s' := fresh "s" in let E := fresh "E" in let R := fresh "R" in
+            destruct (fold_opt_sim (sbR best) f g worst) with (s := s0) (t := t0) as (s' & E & R);
+            [ swB_step best
+            | unfold sbR; cbn [fst snd]; rewrite restof_next; unfold wvals in *; repeat split; auto
+            | unfold wvals in *; rewrite E; cbn [obind]; destruct s' as [[[[? ?] ?] ?] ?]; destruct R as (R & _); gnorm;
+              destruct (fold_left _ worst _) as [? sw]; cbn [snd] in *; subst sw; reflexivity ]
+          end ].
+Qed.
+
+Lemma ne_all_filter (f : wvals -> bool) l : ne_all l -> ne_all (filter f l).
+Proof. unfold ne_all. induction 1; cbn; [constructor|]. destruct (f x); [constructor|]; assumption. Qed.
+
+Lemma splitA_ne fs obj : ne_all fs -> ne_all (fst (splitA fs obj)) /\ ne_all (snd (splitA fs obj)).
+Proof. intro H. unfold splitA. cbv zeta. destruct (_ <=? _); cbn [fst snd]; split; apply ne_all_filter, H. Qed.
+
+Lemma splitB_ne best worst obj : ne_all best ->
+  ne_all (fst (fst (fst (splitB best worst obj)))) /\ ne_all (snd (fst (fst (splitB best worst obj)))).
+Proof. intro H. unfold splitB. cbv zeta. destruct (_ <=? _); cbn [fst snd]; split; apply ne_all_filter, H. Qed.
 
 (* ---- sortNDHelperB / sortNDHelperA: same recursion, callee by callee ---- *)
 Lemma zlen_2_inv {A} (l : list A) : zlen l = 2 -> exists a b, l = [a; b].
@@ -150,25 +274,32 @@ Ltac bool_cases :=
   end; reflexivity.
 (* recursive calls: rewrite the closed ones with the induction hypothesis, case on their result, repeat *)
 Ltac calls IH :=
-  repeat (rewrite ?IH, ?obind_some;
+  repeat (rewrite ?IH by assumption; rewrite ?obind_some;
           match goal with
           | |- context[obind (helperB ?fu ?a ?b ?c ?d) _] => destruct (helperB fu a b c d); cbn [obind]
           | |- context[obind (helperA ?fu ?a ?c ?d) _] => destruct (helperA fu a c d); cbn [obind]
-          end); rewrite ?IH, ?obind_some.
+          end); rewrite ?IH by assumption; rewrite ?obind_some.
 
 Ltac hB_branch IH :=
   first [ reflexivity
         | unfold helperB_direct; f_equal; apply fold_left_ext; intros ? ?; gnorm; rewrite ?fold_left_map;
-          apply fold_left_ext; intros ? ?; gnorm; rewrite ?gen_isDominated_eq; unfold weakly_dominated_upto, fbump; first [reflexivity | bool_cases]
+          apply fold_left_ext; intros ? ?; gnorm;
+          rewrite ?gen_isDominated_eq; unfold weakly_dominated_upto, fbump; first [reflexivity | bool_cases]
         | calls IH; reflexivity
-        | match goal with |- context[splitB ?b ?w ?o] => destruct (splitB b w o) as [[[? ?] ?] ?] end; calls IH; reflexivity ].
+        | match goal with NE : ne_all ?b |- context[splitB ?b ?w ?o] =>
+            let H1 := fresh "H" in let H2 := fresh "H" in
+            destruct (splitB_ne b w o NE) as [H1 H2]; destruct (splitB b w o) as [[[? ?] ?] ?]; cbn [fst snd] in H1, H2 end;
+          calls IH; reflexivity ].
 
-Lemma gen_sortNDHelperB_eq fuel : forall best worst obj front,
+(* (the tuples of `best` must not be empty: `while next_best and ...` in sweepB tests the truth value of a tuple) *)
+Lemma gen_sortNDHelperB_eq fuel : forall best worst obj front, ne_all best ->
   gen_sortNDHelperB fuel best worst obj front = helperB fuel best worst obj front.
 Proof.
   first [ intros; reflexivity
-        | induction fuel as [|fu IH]; intros best worst obj front; [reflexivity|];
-          cbn [gen_sortNDHelperB helperB]; gnorm; rewrite ?gen_sweepB_eq, ?gen_splitB_eq, ?zmin_list_map_key, ?zmax_list_map_key;
+        | induction fuel as [|fu IH]; intros best worst obj front NE; [reflexivity|];
+          cbn [gen_sortNDHelperB helperB]; gnorm;
+          rewrite ?gen_sweepB_eq by assumption; cbn [obind];
+          rewrite ?gen_splitB_eq, ?zmin_list_map_key, ?zmax_list_map_key;
           same_ifs; hB_branch IH ].
 Qed.
 
@@ -178,33 +309,46 @@ Ltac hA_branch IH :=
           rewrite ?py_nth_0, ?py_nth_1, ?gen_isDominated_eq; unfold fbump;
           bool_cases
         | calls IH; reflexivity
-        | match goal with |- context[splitA ?f ?o] => destruct (splitA f o) as [? ?] end;
-          calls IH; rewrite ?gen_sortNDHelperB_eq; calls IH; reflexivity ].
+        | match goal with NE : ne_all ?f |- context[splitA ?f ?o] =>
+            let H1 := fresh "H" in let H2 := fresh "H" in
+            destruct (splitA_ne f o NE) as [H1 H2]; destruct (splitA f o) as [? ?]; cbn [fst snd] in H1, H2 end;
+          calls IH; rewrite ?gen_sortNDHelperB_eq by assumption; calls IH; reflexivity ].
 
-Lemma gen_sortNDHelperA_eq fuel : forall fs obj front,
+Lemma gen_sortNDHelperA_eq fuel : forall fs obj front, ne_all fs ->
   gen_sortNDHelperA fuel fs obj front = helperA fuel fs obj front.
 Proof.
   first [ intros; reflexivity
-        | induction fuel as [|fu IH]; intros fs obj front; [reflexivity|];
+        | induction fuel as [|fu IH]; intros fs obj front NE; [reflexivity|];
           cbn [gen_sortNDHelperA helperA]; gnorm; rewrite ?gen_sweepA_eq, ?gen_splitA_eq;
           same_ifs; hA_branch IH ].
 Qed.
 
+Lemma ne_all_sorted_keys pop : (forall x, In x pop -> iw x <> []) -> ne_all (sort_desc (kkeys (group_inds pop))).
+Proof.
+  intro H. unfold ne_all. apply Forall_forall. intros f Hf.
+  apply (Permutation_in _ (sort_desc_perm _)) in Hf. apply group_inds_keys in Hf.
+  apply in_map_iff in Hf as (x & <- & Hx). apply H, Hx.
+Qed.
+
 (* ---- sortLogNondominated: grouping, dict.fromkeys, the sort, the recursion (with the model's fuel), extraction of the
    fronts and the trimming loop.  `individuals[0]` of the empty population raises in Python: the equality is claimed for
-   non-empty populations (every C04 theorem about the divide-and-conquer sort has that hypothesis). ---- *)
-Lemma gen_sortLogNondominated_eq pop k ffo : pop <> [] -> gen_sortLogNondominated pop k ffo = sort_log pop k ffo.
+   non-empty populations whose individuals have at least one objective (sweepB tests the truth value of a fitness tuple);
+   every C04 theorem about the divide-and-conquer sort has the stronger hypotheses `pop <> []`, `2 <= length (iw x)`. ---- *)
+Lemma gen_sortLogNondominated_eq pop k ffo : pop <> [] -> (forall x, In x pop -> iw x <> []) ->
+  gen_sortLogNondominated pop k ffo = sort_log pop k ffo.
 Proof.
-  intro NE.
+  intros NE NEW.
   first [ reflexivity
         | unfold gen_sortLogNondominated, sort_log, log_ranks, log_extract; gnorm;
           destruct (k =? 0); [reflexivity|];
           destruct pop as [|x0 rest]; [congruence|];
           rewrite ?py_nth_0;
           rewrite ?(fold_left_enum _ group_step) by (intros; reflexivity);
+          repeat match goal with |- context[fold_left ?f (x0 :: rest) []] =>
+            lazymatch f with group_step => fail | _ => rewrite (fold_left_ext f group_step (x0 :: rest)) by (intros; reflexivity) end end;
           change (fold_left group_step (x0 :: rest) []) with (group_inds (x0 :: rest));
           rewrite ?fromkeys_nodup by exact (group_inds_nodup (x0 :: rest));
-          rewrite gen_sortNDHelperA_eq;
+          rewrite gen_sortNDHelperA_eq by (apply (ne_all_sorted_keys (x0 :: rest)), NEW);
           let EH := fresh "EH" in let NN := fresh "NN" in
           destruct (helperA _ _ _ _) as [front|] eqn:EH; cbn [obind]; [|reflexivity];
           assert (NN : nonneg front) by (eapply nonneg_helperA; [apply nonneg_const|exact EH]);
